@@ -2,7 +2,7 @@
    secretbox.Overhead 16), assembled from the generic lemmas of C32.Proofs. *)
 From Coq Require Import List ZArith NArith Arith Bool Lia.
 From Verif Require Import Outcome Cmp.
-From C32 Require Import Model Run Proofs Toy.
+From C32 Require Import Model Run Proofs Toy Handshake.
 Import ListNotations.
 
 (* the idealised AEAD: what the theorems assume about secretbox with the shared key *)
@@ -107,17 +107,22 @@ Section Top.
   Qed.
 End Top.
 
-(* the full handshake statement for two honest ends: supported by the correspondence
-   runs and the oracle (real/real handshakes), not proved here *)
+(* ---- two honest ends ------------------------------------------------------------- *)
+(* what the theorems assume about the key agreement and the signature scheme:
+   [eph_pub]/[pk] derive the public from the private key *)
+Definition keys_ok (dh : bytes -> bytes -> bytes) (sign : bytes -> bytes -> bytes)
+           (verify : bytes -> bytes -> bytes -> bool) (eph_pub pk : bytes -> bytes) : Prop :=
+  (forall a b, dh (eph_pub a) b = dh (eph_pub b) a) /\     (* DH commutes *)
+  (forall a, length (eph_pub a) = 32) /\
+  (forall sk m, verify (pk sk) m (sign sk m) = true) /\     (* honest signatures verify *)
+  (forall sk, length (pk sk) = 32) /\ (forall sk m, length (sign sk m) = 64).
+
 Definition c32_handshake_honest_full : Prop :=
   forall (seal : bytes -> bytes -> bytes -> bytes) (open : bytes -> bytes -> bytes -> option bytes)
          (dh : bytes -> bytes -> bytes) (h24 h32 : bytes -> bytes)
          (sign : bytes -> bytes -> bytes) (verify : bytes -> bytes -> bytes -> bool)
          (eph_pub pk : bytes -> bytes),
-    aead_ok 16 seal open ->
-    (forall a b, dh (eph_pub a) b = dh (eph_pub b) a) -> (forall a, length (eph_pub a) = 32) ->
-    (forall sk m, verify (pk sk) m (sign sk m) = true) ->
-    (forall sk, length (pk sk) = 32) -> (forall sk m, length (sign sk m) = 64) ->
+    aead_ok 16 seal open -> keys_ok dh sign verify eph_pub pk ->
     forall skA skB ea eb, eph_pub ea <> eph_pub eb ->
     exists outA outB scA scB,
       handshake 1024 16 seal open dh h24 h32 sign verify (pk skA) skA (eph_pub ea) ea outB = Ok (scA, [], outA) /\
@@ -125,3 +130,83 @@ Definition c32_handshake_honest_full : Prop :=
       remPub scA = pk skB /\ remPub scB = pk skA /\ key scA = key scB /\
       sendNonce scA = recvNonce scB /\ sendNonce scB = recvNonce scA /\
       recvBuffer scA = [] /\ recvBuffer scB = [].
+
+Lemma M0_fits : 100 <= M0.
+Proof. unfold M0. lia. Qed.
+
+Lemma handshake_honest_full : c32_handshake_honest_full.
+Proof.
+  intros seal open dh h24 h32 sign verify eph_pub pk [OS SL] [DC [EL [VS [PL SGL]]]] skA skB ea eb Hne.
+  exact (handshake_honest M0 OV0 seal open dh h24 h32 sign verify eph_pub pk
+           M0_fits M0_u16 OS SL DC EL VS PL SGL skA skB ea eb Hne).
+Qed.
+
+(* ... and therefore both directions of the resulting pair of connections start synced,
+   and the stream theorem applies to each *)
+Definition stream_holds (seal : bytes -> bytes -> bytes -> bytes)
+           (open : bytes -> bytes -> bytes -> option bytes) (l : link) : Prop :=
+  forall ops, no_tamper ops ->
+  exists l' rs,
+    run 1024 16 seal open l ops = Ok (l', rs) /\
+    Forall good_obs rs /\ length rs = length ops /\
+    exists pending,
+      written ops = delivered_all rs ++ pending /\
+      (pending = [] <-> wire l' = [] /\ recvBuffer (rx l') = []).
+
+Lemma stream_after_handshake :
+  forall (seal : bytes -> bytes -> bytes -> bytes) (open : bytes -> bytes -> bytes -> option bytes)
+         (dh : bytes -> bytes -> bytes) (h24 h32 : bytes -> bytes)
+         (sign : bytes -> bytes -> bytes) (verify : bytes -> bytes -> bytes -> bool)
+         (eph_pub pk : bytes -> bytes),
+    aead_ok 16 seal open -> keys_ok dh sign verify eph_pub pk ->
+    forall skA skB ea eb, eph_pub ea <> eph_pub eb ->
+    exists outA outB scA scB,
+      handshake 1024 16 seal open dh h24 h32 sign verify (pk skA) skA (eph_pub ea) ea outB = Ok (scA, [], outA) /\
+      handshake 1024 16 seal open dh h24 h32 sign verify (pk skB) skB (eph_pub eb) eb outA = Ok (scB, [], outB) /\
+      remPub scA = pk skB /\ remPub scB = pk skA /\
+      synced (mkLink scA [] scB) /\ synced (mkLink scB [] scA) /\
+      stream_holds seal open (mkLink scA [] scB) /\ stream_holds seal open (mkLink scB [] scA).
+Proof.
+  intros seal open dh h24 h32 sign verify eph_pub pk A K skA skB ea eb Hne.
+  destruct (handshake_honest_full seal open dh h24 h32 sign verify eph_pub pk A K skA skB ea eb Hne)
+    as [outA [outB [scA [scB [HA [HB [RA [RB [Kk [N1 [N2 [B1 B2]]]]]]]]]]]].
+  assert (S1 : synced (mkLink scA [] scB)) by (unfold synced; cbn; auto).
+  assert (S2 : synced (mkLink scB [] scA)) by (unfold synced; cbn; auto).
+  exists outA, outB, scA, scB. repeat split; auto.
+  - intros ops T. exact (stream seal open A _ ops S1 T).
+  - intros ops T. exact (stream seal open A _ ops S2 T).
+Qed.
+
+(* ---- the hypotheses on keys are satisfiable: a toy DH and a toy signature scheme --- *)
+Definition toy_eph_pub (a : bytes) : bytes := fit 32 a.
+Definition toy_dh (p b : bytes) : bytes := [(sumN p + sumN (fit 32 b))%N].
+Definition toy_pk (sk : bytes) : bytes := fit 32 sk.
+Definition toy_sign (sk m : bytes) : bytes := fit 64 (fit 32 sk ++ m).
+Definition toy_verify (p m s : bytes) : bool := bytes_eqb s (fit 64 (p ++ m)).
+
+Lemma toy_keys : keys_ok toy_dh toy_sign toy_verify toy_eph_pub toy_pk.
+Proof.
+  unfold keys_ok, toy_dh, toy_sign, toy_verify, toy_eph_pub, toy_pk. repeat split; intros.
+  - rewrite N.add_comm. reflexivity.
+  - apply fit_length.
+  - apply bytes_eqb_eq. reflexivity.
+  - apply fit_length.
+  - apply fit_length.
+Qed.
+
+(* the whole chain instantiated: toy box, toy DH, toy signatures, two different
+   ephemeral keys - every hypothesis of the handshake theorems holds for them *)
+Example ex_honest_toy :
+  exists outA outB scA scB,
+    handshake 1024 16 toy_seal toy_open toy_dh (fun x => x) (fun x => x) toy_sign toy_verify
+              (toy_pk [7]%N) [7]%N (toy_eph_pub [1]%N) [1]%N outB = Ok (scA, [], outA) /\
+    handshake 1024 16 toy_seal toy_open toy_dh (fun x => x) (fun x => x) toy_sign toy_verify
+              (toy_pk [9]%N) [9]%N (toy_eph_pub [2]%N) [2]%N outA = Ok (scB, [], outB) /\
+    remPub scA = toy_pk [9]%N /\ remPub scB = toy_pk [7]%N /\
+    synced (mkLink scA [] scB) /\ synced (mkLink scB [] scA) /\
+    stream_holds toy_seal toy_open (mkLink scA [] scB) /\ stream_holds toy_seal toy_open (mkLink scB [] scA).
+Proof.
+  apply (stream_after_handshake toy_seal toy_open toy_dh (fun x => x) (fun x => x) toy_sign toy_verify
+           toy_eph_pub toy_pk (proj1 toy_aead) toy_keys [7]%N [9]%N [1]%N [2]%N).
+  unfold toy_eph_pub. intros E. apply (f_equal (fun l => hd 0%N l)) in E. vm_compute in E. discriminate.
+Qed.
